@@ -92,3 +92,12 @@ Definition mrun (ops : list mop) : world := fold_left mstep ops w0.
 
 Definition live_sessions (w : world) (p : proto) : Z :=
   Z.of_nat (length (filter (fun s => proto_eqb (snd s) p) (sessions w))).
+
+(* Datagram traffic (udp_pipe.rs): each datagram is offered to the sink of its direction, which reports it
+   Sent or Dropped. [sent_only] = METRICS_COUNT_SENT_DATAGRAMS_ONLY: the counter moves in the Sent arm only;
+   otherwise (the slip this guards against) for every datagram offered. *)
+Definition count_datagrams (sent_only : bool) (offers : list (N * bool)) : N :=
+  fold_left (fun (acc : N) (o : N * bool) => if (snd o || negb sent_only)%bool then (acc + fst o)%N else acc) offers 0%N.
+
+Definition delivered_datagram_bytes (offers : list (N * bool)) : N :=
+  fold_left (fun (acc : N) (o : N * bool) => if snd o then (acc + fst o)%N else acc) offers 0%N.
